@@ -1,5 +1,7 @@
 //! Which scenarios decide which property, with their run budgets.
 use crate::framework::{Plan, Scenario, Tier, Viol};
+use crate::durable::{DProp, DScenario};
+use crate::hist::{HProp, HScenario};
 use crate::props_r::{RProp, RScenario};
 use serde_json::Value;
 
@@ -7,15 +9,27 @@ fn r(prop: RProp, q: u64, t: u64) -> Plan {
     Plan { scenario: Box::new(RScenario { prop }) as Box<dyn Scenario>, runs_quick: q, runs_thorough: t }
 }
 
+fn h(prop: HProp, q: u64, t: u64) -> Plan {
+    Plan { scenario: Box::new(HScenario { prop }) as Box<dyn Scenario>, runs_quick: q, runs_thorough: t }
+}
+
+fn d(prop: DProp, enumerate: bool, q: u64, t: u64) -> Plan {
+    Plan { scenario: Box::new(DScenario { prop, enumerate }) as Box<dyn Scenario>, runs_quick: q, runs_thorough: t }
+}
+
 pub fn plans(prop: &str) -> Vec<Plan> {
     match prop {
+        "C05" => vec![d(DProp::C05, false, 200_000, 4_000_000), d(DProp::C05, true, 200_000, 7 * 1_048_576)],
+        "C15" => vec![d(DProp::C15, false, 200_000, 4_000_000), d(DProp::C15, true, 200_000, 7 * 1_048_576)],
+        "C06" => vec![h(HProp::C06, 400_000, 8_000_000)],
+        "C13" => vec![h(HProp::C13, 200_000, 4_000_000)],
         "C02" => vec![r(RProp::C02, 150_000, 4_000_000)],
         "C08" => vec![r(RProp::C08, 300_000, 6_000_000)],
         "C09" => vec![r(RProp::C09, 300_000, 6_000_000)],
-        "C11" => vec![r(RProp::C11Scalar, 100_000, 2_000_000), r(RProp::C11Pair, 100_000, 2_000_000)],
+        "C11" => vec![r(RProp::C11Scalar, 100_000, 2_000_000), r(RProp::C11Pair, 100_000, 2_000_000), h(HProp::C11, 100_000, 2_000_000)],
         "C14" => vec![r(RProp::C14, 400_000, 8_000_000)],
-        "C17" => vec![r(RProp::C17Scalar, 150_000, 3_000_000), r(RProp::C17Pair, 150_000, 3_000_000)],
-        "C18" => vec![r(RProp::C18Scalar, 50_000, 1_000_000), r(RProp::C18Pair, 50_000, 1_000_000)],
+        "C17" => vec![r(RProp::C17Scalar, 150_000, 3_000_000), r(RProp::C17Pair, 150_000, 3_000_000), h(HProp::C17, 100_000, 2_000_000)],
+        "C18" => vec![d(DProp::C18, false, 200_000, 4_000_000), r(RProp::C18Scalar, 50_000, 1_000_000), r(RProp::C18Pair, 50_000, 1_000_000), h(HProp::C18, 100_000, 2_000_000)],
         "C20" => vec![r(RProp::C20Scalar, 100_000, 2_000_000), r(RProp::C20Pair, 100_000, 2_000_000)],
         _ => vec![],
     }
